@@ -64,6 +64,21 @@ def _decode_read(t):
         r = _range_consts(x[2][0])
         if r and r[0] is not None:
             return r[0], r[1], _int_ty(x[1]), adj
+        # from_le_bytes([buf[k], buf[k + 1], ..]): consecutive bytes in ascending order
+        arr = strip_casts(x[2][0])
+        if arr[0] == "agg" and arr[1][0] == "array" and arr[2]:
+            pos = []
+            for o in arr[2]:
+                o = strip(o)
+                if o[0] == "index" and const_eval(o[2]) is not None:
+                    bv = byteview(o[1])
+                    pos.append(((bv[1] if bv else 0) + const_eval(o[2]), tree_str(strip(bv[0])) if bv else None))
+                else:
+                    pos = None
+                    break
+            if pos and all(pos[i][0] == pos[0][0] + i and pos[i][1] == pos[0][1] for i in range(len(pos))):
+                return pos[0][0], pos[0][0] + len(pos), _int_ty(x[1]), adj
+            return None
         # an open-ended view (`buf.split_at(8).1`, `&buf[8..]`) converted to [u8; N]: the conversion only succeeds
         # for exactly N bytes, so the field is lo .. lo + N
         bv = byteview(x[2][0])
